@@ -27,6 +27,8 @@ def run(ctx: Ctx) -> None:
         scs.append(qf.gen_c10(rng, 'c13r-%d' % k, ctx.thorough))
     for k in range(ctx.pick(6, 60)):
         scs.append(qf.gen_c13_unwritable(rng, 'c13u-%d' % k, ctx.thorough))
+    for k in range(ctx.pick(24, 300)):
+        scs.append(qf.gen_c13_late(rng, 'c13l-%d' % k, ctx.thorough))
     run_traces(ctx, OWN, scs)
     # the question history on its own: History.tla explored by TLC, its histories performed on a real QuestionHistory and every
     # answer of suppresses() judged by TLC against HistoryContract.tla (clause C13_HistorySuppresses)
